@@ -118,3 +118,66 @@ func RunImplementers(c *Ctx, rule, ifacePkg, ifaceName string, expected []string
 }
 
 var _ = typeutil.Callee
+
+// RunMethodValueUses: every use of method `recvType.m` (m in methods) must be a method value passed directly as an
+// argument to a call of method `wrapper` on the same receiver type.
+func RunMethodValueUses(c *Ctx, rule, pkg, recvType string, methods []string, wrapper, why string) {
+	want := map[string]bool{}
+	for _, m := range methods {
+		want[m] = true
+		if c.P.Fn(pkg+".(*"+recvType+")."+m) == nil {
+			c.R.Fail("anchor-unresolved", pkg+".(*"+recvType+")."+m, rule, "method not found: re-point the table")
+		}
+	}
+	count := map[string]int{}
+	for _, fi := range c.P.Funcs {
+		if fi.Body == nil || fi.Parent != nil || fi.Ctl || shortPkg(fi.Pkg.PkgPath) != pkg {
+			continue
+		}
+		info := fi.Pkg.TypesInfo
+		okUse := map[*ast.SelectorExpr]bool{}
+		ast.Inspect(fi.Body, func(n ast.Node) bool {
+			call, ok := n.(*ast.CallExpr)
+			if !ok {
+				return true
+			}
+			if fn, _ := typeutil.Callee(info, call).(*types.Func); fn != nil && fn.Name() == wrapper {
+				if sig := fn.Type().(*types.Signature); sig.Recv() != nil && recvString(sig.Recv().Type()) == "*"+recvType {
+					for _, a := range call.Args {
+						if sel, ok := unparen(a).(*ast.SelectorExpr); ok {
+							okUse[sel] = true
+						}
+					}
+				}
+			}
+			return true
+		})
+		ast.Inspect(fi.Body, func(n ast.Node) bool {
+			sel, ok := n.(*ast.SelectorExpr)
+			if !ok {
+				return true
+			}
+			fn, _ := info.Uses[sel.Sel].(*types.Func)
+			if fn == nil || !want[fn.Name()] {
+				return true
+			}
+			sig := fn.Type().(*types.Signature)
+			if sig.Recv() == nil || recvString(sig.Recv().Type()) != "*"+recvType {
+				return true
+			}
+			count[fn.Name()]++
+			good := okUse[sel]
+			c.R.Obl(Obligation{Rule: rule, Func: fi.Name, Construct: "use of " + recvType + "." + fn.Name(), Pos: c.P.Position(sel.Pos()), Discharged: good, Nontrivial: true, How: []string{"must be the direct argument of " + wrapper + "(...)"}})
+			if !good {
+				c.R.Find(Finding{Rule: rule, Func: fi.Name, Construct: "use of " + recvType + "." + fn.Name() + " outside " + wrapper, Pos: c.P.Position(sel.Pos()),
+					Msg: fmt.Sprintf("%s.%s is used in %s other than as the argument of %s(...) (%s)", recvType, fn.Name(), fi.Name, wrapper, why)})
+			}
+			return true
+		})
+	}
+	for _, m := range methods {
+		if count[m] == 0 {
+			c.R.Find(Finding{Rule: "vacuity", Func: pkg + ".(*" + recvType + ")." + m, Construct: rule, Pos: "-", Msg: "handler " + m + " is never used: re-point the table of rule " + rule})
+		}
+	}
+}
